@@ -6,12 +6,14 @@ From JB Require Import Constants Bytes Utf8 Num Value Codec Decimal JsonText Ord
   Render Serde Path PathSem PathParse Dispatch Walk CompareWalk ComparableWalk.
 From JB Require Import RenderWalk.
 From JB Require Import SelWalk.
+From JB Require Import ContainWalk.
 Extraction Language OCaml.
 Extraction "model.ml"
   to_vec write_to_vec enc parse_jsonb is_jsonb assoc_insert
   compact_encode num_decode num_decode_old num_cmp num_cmp_old num_eqb as_i64 as_u64 as_f64 normalise
   parse_value from_slice doc_of cmp_value compare_m value_eqb
   compare_w comparable_w
+  contains_w
   to_string_w to_pretty_string_w
   array_length_w get_by_index_w get_by_name_w get_by_keypath_w object_keys_w object_each_w array_values_w
   array_length_m get_by_index_m get_by_name_m get_by_keypath_m object_keys_m object_each_m array_values_m type_of_m
